@@ -7,6 +7,7 @@ import SpoxModel.Props.C15
 #print axioms C15.off_is_transparent
 #print axioms C15.raise_is_off
 #print axioms C15.valueless_input_propagates_nothing
+#print axioms C15.downstream_types_permissive
 #print axioms C15.construct_total_counterexample
 #print axioms C15.no_bad_value_counterexample
 #print axioms C15.off_is_transparent_counterexample
